@@ -31,6 +31,7 @@ import YtkProofs.ResolverRelex
 import YtkProofs.ResolverNestedConv
 import YtkProofs.ResolverStable
 import YtkProofs.FuncsLemmas
+import YtkProofs.FuncsResolver
 import YtkProofs.GapResolverStr
 
 namespace Ytk.C11
@@ -1374,5 +1375,730 @@ theorem replaceAt_generated_eq_model (s repl : String) (start stop : Nat) (h : s
     congr 1; apply String.toList_inj.mp; simp [String.toList_append]
 
 theorem indexAfter_negative_offset_panics : Funcs.indexAfter "ab" "a" (-1) = .panic := by decide
+
+end Ytk.C11
+
+/-! ## `propImpl.findEndIndex`, as translated (bytes), against `findEnd` (tokens)
+
+    The translation flattens the receiver: `p.pl`, `p.b.suffix`, `p.sl`, `p.b.prefix` are parameters;
+    `MustBuild` sets `pl = len(prefix)`, `sl = len(suffix)` and the theorem instantiates them so. -/
+namespace Ytk.C11
+open Ytk.Generated Ytk.Resolver
+
+/-- what `findEndIndex` does with the outcome of its loop: `return index` inside, `return notFound` behind it -/
+def feFinish : Go.Ctl Int (Int × Int) → Go.Res Int
+  | .ret r => .ok r
+  | .next _ => .ok (-1)
+
+/-- the loop of the translated `findEndIndex` IS the character-level scan `scanEnd` (no panic, fuel suffices) -/
+theorem findEndIndex_loop1_eq (d : Delims) (hp : d.pre ≠ []) (hs : d.suf ≠ []) (buf : String) :
+    ∀ (fuel i n : Nat), buf.toList.length - i + 1 ≤ fuel →
+      (Funcs.findEndIndex_loop1 (d.pre.length : Int) (String.ofList d.suf) (d.suf.length : Int)
+          (String.ofList d.pre) buf fuel (i : Int) (n : Int) >>= feFinish)
+        = .ok (match scanEnd d 0 n (buf.toList.drop i) with
+               | some k => ((i + k : Nat) : Int)
+               | none => -1) := by
+  intro fuel
+  induction fuel with
+  | zero => intro i n h; omega
+  | succ fuel ih =>
+    intro i n hf
+    unfold Funcs.findEndIndex_loop1
+    have hpl : 1 ≤ d.pre.length := List.length_pos_iff.mpr hp
+    have hsl : 1 ≤ d.suf.length := List.length_pos_iff.mpr hs
+    by_cases hi : i < buf.toList.length
+    · have h1 : ((i : Int) < Go.len buf) := by simp only [Go.len_eq]; omega
+      have hm1 := matchAt_generated_eq_model buf (String.ofList d.suf) i (Nat.le_of_lt hi)
+      have hm2 := matchAt_generated_eq_model buf (String.ofList d.pre) i (Nat.le_of_lt hi)
+      rw [String.toList_ofList] at hm1 hm2
+      have hne : buf.toList.drop i ≠ [] := by
+        intro e; have := congrArg List.length e; simp at this; omega
+      simp only [h1, decide_true, if_true, hm1, hm2, Go.Res.ok_bind]
+      cases hS : isPrefixOfChars d.suf (buf.toList.drop i) with
+      | true =>
+        cases n with
+        | zero => simp [scanEnd_suf_zero hne hS, feFinish]
+        | succ m =>
+          have hn : (((m + 1 : Nat) : Int) > 0) := by omega
+          have e1 : (((m + 1 : Nat) : Int) - 1) = (m : Int) := by omega
+          have e2 : (i : Int) + (d.suf.length : Int) = ((i + d.suf.length : Nat) : Int) := by omega
+          simp only [hn, decide_true, if_true, e1, e2]
+          rw [ih (i + d.suf.length) m (by omega), scanEnd_suf_succ m hs hS, List.drop_drop]
+          cases scanEnd d 0 m (List.drop (i + d.suf.length) buf.toList) <;> simp <;> omega
+      | false =>
+        cases hP : isPrefixOfChars d.pre (buf.toList.drop i) with
+        | true =>
+          have e1 : ((n : Int) + 1) = ((n + 1 : Nat) : Int) := by omega
+          have e2 : (i : Int) + (d.pre.length : Int) = ((i + d.pre.length : Nat) : Int) := by omega
+          simp only [if_true, e1, e2, Bool.false_eq_true, if_false]
+          rw [ih (i + d.pre.length) (n + 1) (by omega), scanEnd_pre n hp hS hP, List.drop_drop]
+          cases scanEnd d 0 (n + 1) (List.drop (i + d.pre.length) buf.toList) <;> simp <;> omega
+        | false =>
+          have e2 : (i : Int) + 1 = ((i + 1 : Nat) : Int) := by omega
+          simp only [e2, Bool.false_eq_true, if_false]
+          rw [ih (i + 1) n (by omega)]
+          obtain ⟨c, cs, hc⟩ := List.exists_cons_of_ne_nil hne
+          have hcs : List.drop (i + 1) buf.toList = cs := by
+            rw [← List.drop_drop, hc]; rfl
+          rw [hc] at hS hP
+          rw [hc, scanEnd_ch n hS hP, hcs]
+          cases scanEnd d 0 n cs <;> simp <;> omega
+    · have h1 : ¬ ((i : Int) < Go.len buf) := by simp only [Go.len_eq]; omega
+      have hd : buf.toList.drop i = [] := List.drop_eq_nil_of_le (by omega)
+      simp [h1, hd, scanEnd_nil, feFinish]
+
+theorem findEndIndex_unfold (pl : Int) (suf : String) (sl : Int) (pre : String) (buf : String) (start : Int) :
+    Funcs.findEndIndex pl suf sl pre buf start
+      = (Funcs.findEndIndex_loop1 pl suf sl pre buf ((Go.len buf + 1).toNat) (start + pl) 0 >>= feFinish) := by
+  unfold Funcs.findEndIndex
+  dsimp only
+  congr 1
+  funext x
+  rcases x with r | ⟨a, b⟩ <;> rfl
+
+/-- props.propImpl.findEndIndex, as translated, on BYTES, for every string and every start index:
+    no panic, loop fuel `len(buf)+1` suffices, and the result is the character-level scan `scanEnd`
+    of the text behind the prefix (delimiters non-empty — `MustBuild` does not check that; with an
+    empty suffix the Go loop would not advance). -/
+theorem findEndIndex_generated_eq_scan (d : Delims) (hp : d.pre ≠ []) (hs : d.suf ≠ []) (buf : String) (start : Nat) :
+    Funcs.findEndIndex (d.pre.length : Int) (String.ofList d.suf) (d.suf.length : Int) (String.ofList d.pre) buf
+        (start : Int)
+      = .ok (match scanEnd d 0 0 (buf.toList.drop (start + d.pre.length)) with
+             | some k => ((start + d.pre.length + k : Nat) : Int)
+             | none => -1) := by
+  rw [findEndIndex_unfold]
+  have e : (start : Int) + (d.pre.length : Int) = ((start + d.pre.length : Nat) : Int) := by omega
+  have hf : (Go.len buf + 1).toNat = buf.toList.length + 1 := by simp only [Go.len_eq]; omega
+  rw [e, hf]
+  exact findEndIndex_loop1_eq d hp hs buf _ _ 0 (by omega)
+
+/-- **BYTES ↔ TOKENS.**  props.propImpl.findEndIndex, as translated, started at the index `start` of a
+    prefix (the Go code never looks at `buf[:start+pl]`), for EVERY string `buf` and every `start`:
+    it does not panic, the fuel suffices, and with `rest = buf[start+pl:]`
+      * it returns `-1` (notFound) iff the model's `findEnd 0 (lex d rest)` is `none`;
+      * if the model returns `some (ph, after)` it returns `start + pl + |unlex d ph|`, the byte
+        position that corresponds to the position of the closing suffix token in the token list:
+        `rest = unlex d ph ++ suffix ++ unlex d after` (`findEndIndex_position`).
+    Domain: `Delims.ScanOK` (non-empty delimiters with pairwise different first characters, no
+    character of the separator starts the prefix or the suffix) — implied by the model's "no
+    character shared between two delimiters"; `LexOK` alone is not enough
+    (`findEndIndex_lexOK_not_enough_counterexample`). -/
+theorem findEndIndex_generated_eq_model (d : Delims) (hd : d.ScanOK) (buf : String) (start : Nat) :
+    Funcs.findEndIndex (d.pre.length : Int) (String.ofList d.suf) (d.suf.length : Int) (String.ofList d.pre) buf
+        (start : Int)
+      = .ok (match findEnd 0 (lex d (buf.toList.drop (start + d.pre.length))) with
+             | some (ph, _) => ((start + d.pre.length + (unlex d ph).length : Nat) : Int)
+             | none => -1) := by
+  obtain ⟨a, as, b, bs, c, cs, hp, hs, _⟩ := hd.cases
+  rw [findEndIndex_generated_eq_scan d (by rw [hp]; simp) (by rw [hs]; simp), scanEnd_eq_findEnd' hd]
+  cases findEnd 0 (lex d (buf.toList.drop (start + d.pre.length))) <;> rfl
+
+/-- the position statement behind `findEndIndex_generated_eq_model`: what the model's `findEnd`
+    returns on the lexed text splits the BYTES at the returned index (every delimiter triple) -/
+theorem findEndIndex_position (d : Delims) (rest : List Char) (ph after : Toks)
+    (h : findEnd 0 (lex d rest) = some (ph, after)) :
+    rest = unlex d ph ++ d.suf ++ unlex d after := by
+  have e := (findEnd_some_spec h).1
+  have := unlex_lex' d rest
+  rw [e, DivR.unlex_append] at this
+  rw [← this]; simp [unlex, unlexTok]
+
+theorem nonvacuous_findEndIndex :
+    DivR.dd.ScanOK ∧
+    Funcs.findEndIndex 2 "}" 1 "${" "a${x${y}:d}z" (1 : Nat) = .ok 10 ∧
+    findEnd 0 (lex DivR.dd "x${y}:d}z".toList) = some ([.ch 'x', .pre, .ch 'y', .suf, .sep, .ch 'd'], [.ch 'z']) ∧
+    Funcs.findEndIndex 2 "}" 1 "${" "a${x${y}" (1 : Nat) = .ok (-1) := by
+  decide
+
+/-- `LexOK` (pairwise different FIRST characters) is not enough for bytes = tokens: with the
+    separator `:}` and the suffix `}` the text `${a:}` has the placeholder `a:` for the Go code
+    (index 4 is returned) while the lexer sees prefix, `a`, separator — no suffix token. -/
+theorem findEndIndex_lexOK_not_enough_counterexample :
+    let d : Delims := ⟨['$', '{'], ['}'], [':', '}']⟩
+    d.LexOK ∧ ¬ d.ScanOK ∧
+    Funcs.findEndIndex 2 "}" 1 "${" "${a:}" (0 : Nat) = .ok 4 ∧
+    findEnd 0 (lex d "a:}".toList) = none := by
+  decide
+
+end Ytk.C11
+
+/-! ## `propImpl.resolvePlaceholder` / `propImpl.resolve` / `Resolver.Resolve`, as translated (bytes;
+    `resolve` is self-recursive: the translation carries a recursion fuel, its loop the fuel
+    `len(value)+1`), against the token-level model.
+
+    The lookup function is a parameter `String → Option String` of the translation (a pure total
+    function: the Go callee is assumed neither to panic nor to have effects).  It corresponds to the
+    model's table under the lexer: `LookupRel`. -/
+namespace Ytk.C11
+open Ytk.Generated Ytk.Resolver
+
+/-- the byte-level lookup function and the token-level table describe the same map -/
+def LookupRel (d : Delims) (lk : String → Option String) (tbl : Table) : Prop :=
+  ∀ k : String, lk k = (tbl.get (lex d k.toList)).map (fun v => String.ofList (unlex d v))
+
+/-- props.propImpl.resolvePlaceholder, as translated, on BYTES, for every placeholder text: no
+    panic, and the result is the rendering of what the model's `resolvePlaceholder` returns on the
+    lexed text (`nil` ↔ `none`): direct hit, else key before the first separator, else the default
+    behind it.  Domain: `Delims.BytesOK`; lookup function and table related by `LookupRel`. -/
+theorem resolvePlaceholder_generated_eq_model (d : Delims) (hd : d.BytesOK) (lk : String → Option String)
+    (tbl : Table) (hlk : LookupRel d lk tbl) (ph : String) :
+    Funcs.resolvePlaceholder (String.ofList d.sep) (d.sep.length : Int) lk ph
+      = .ok ((Resolver.resolvePlaceholder tbl (lex d ph.toList)).map (fun v => String.ofList (unlex d v))) := by
+  unfold Funcs.resolvePlaceholder Resolver.resolvePlaceholder
+  rw [hlk ph]
+  cases hg : tbl.get (lex d ph.toList) with
+  | some v => simp
+  | none =>
+    simp only [Option.map_none, Option.isNone_none, if_true]
+    rw [stringsIndex_sep hd ph]
+    cases hs : findSep (lex d ph.toList) with
+    | none => simp
+    | some p =>
+      obtain ⟨k, dflt⟩ := p
+      have hT := findSep_some hs
+      have hph : ph.toList = unlex d k ++ (d.sep ++ unlex d dflt) := by
+        have := unlex_lex' d ph.toList
+        rw [hT, DivR.unlex_append] at this
+        rw [← this]; simp [unlex, unlexTok]
+      have hk : lex d (unlex d k) = k := lex_unlex_prefix hd.1.1 _ _ (Nat.le_refl _) k (.sep :: dflt) hT
+      have hne : ((((unlex d k).length : Nat) : Int) != -1) = true := by simp
+      have hlen : ph.toList.length = (unlex d k).length + (d.sep.length + (unlex d dflt).length) := by
+        rw [hph]; simp
+      have s1 := Go.slice_nat ph 0 (unlex d k).length (Nat.zero_le _) (by omega)
+      have s2 := Go.slice_nat ph ((unlex d k).length + d.sep.length) ph.toList.length (by omega) (Nat.le_refl _)
+      rw [← Go.len_eq] at s2
+      have e1 : (ph.toList.drop 0).take ((unlex d k).length - 0) = unlex d k := by
+        rw [hph]; simp
+      have e2 : (ph.toList.drop ((unlex d k).length + d.sep.length)).take
+          (ph.toList.length - ((unlex d k).length + d.sep.length)) = unlex d dflt := by
+        rw [List.take_of_length_le (by simp)]
+        rw [hph, ← List.drop_drop, List.drop_left, List.drop_left]
+      rw [e1] at s1
+      rw [e2] at s2
+      simp only [Int.natCast_zero] at s1
+      have e3 : (((unlex d k).length : Nat) : Int) + (d.sep.length : Int)
+          = (((unlex d k).length + d.sep.length : Nat) : Int) := by omega
+      have hlk' := hlk (String.ofList (unlex d k))
+      rw [String.toList_ofList, hk] at hlk'
+      simp only [hne, if_true, s1, e3, s2, Go.Res.ok_bind, hlk']
+      cases tbl.get k <;> simp
+
+/-- the recursion of the translated `resolve` needs no loop iteration and no recursive call on a
+    text without a prefix token: PLACEHOLDER-FREE texts are returned verbatim, as the model returns
+    their tokens (whose rendering is the text), for every recursion fuel ≥ 1, every lookup function,
+    every stack.
+
+    Full statement (PROVED further down: `resolve_generated_eq_model`): for every text `s`, every fuel
+    `n` at which the model has ended, `Funcs.resolve … m s lk seen` (m ≥ n) is the rendering of
+    `Resolver.resolve (relex d) n tbl (lex d s) (seen.map lex)` — `.ok t ↦ .ok (some (unlex t))`,
+    `.cycle _ ↦ .panic` — under `BytesOK`, `LookupRel` and table values that re-lex to themselves.
+    This partial needs neither `LookupRel` nor a hypothesis on the table. -/
+theorem resolve_generated_eq_model_plain_partial (d : Delims) (hd : d.BytesOK) (lk : String → Option String)
+    (n : Nat) (norm : Toks → Toks) (tbl : Table) (s : String) (seen : List String) (seenT : List Toks)
+    (hplain : findPre (lex d s.toList) = none) :
+    Funcs.resolve (String.ofList d.pre) (d.pre.length : Int) (String.ofList d.suf) (d.suf.length : Int)
+        (String.ofList d.sep) (d.sep.length : Int) (n + 1) s lk seen = .ok (some s)
+    ∧ Resolver.resolve norm (n + 1) tbl (lex d s.toList) seenT = .ok (lex d s.toList)
+    ∧ String.ofList (unlex d (lex d s.toList)) = s := by
+  refine ⟨?_, ?_, ?_⟩
+  · unfold Funcs.resolve
+    simp [stringsIndex_pre hd s, hplain]
+  · simp [Resolver.resolve, hplain]
+  · rw [unlex_lex']; exact String.ofList_toList
+
+/-- `Resolver.Resolve`, as translated: placeholder-free texts are returned unchanged -/
+theorem Resolve_generated_eq_model_plain_partial (d : Delims) (hd : d.BytesOK) (lk : String → Option String)
+    (n : Nat) (s : String) (hplain : findPre (lex d s.toList) = none) :
+    Funcs.Resolve (n + 1) lk (String.ofList d.pre) (d.pre.length : Int) (String.ofList d.suf) (d.suf.length : Int)
+        (String.ofList d.sep) (d.sep.length : Int) s = .ok s := by
+  unfold Funcs.Resolve
+  rw [(resolve_generated_eq_model_plain_partial d hd lk n id [] s [] [] hplain).1]
+  simp [Go.deref]
+
+/-- the translated resolver RUNS (kernel evaluation of the regenerated definitions, default
+    delimiters): substitution, default, unresolved placeholder kept, nested key, circular reference
+    = panic, unterminated placeholder kept, recursion fuel exhausted -/
+theorem nonvacuous_resolve_generated :
+    let lk : String → Option String := fun k =>
+      if k = "x" then some "1" else if k = "y" then some "${x}" else if k = "k1" then some "K"
+      else if k = "c" then some "${e}" else if k = "e" then some "${c}" else none
+    let R := fun (fuel : Nat) (s : String) => Funcs.Resolve fuel lk "${" 2 "}" 1 ":" 1 s
+    DivR.dd.BytesOK ∧
+    R 5 "a${x}b${q:dflt}${nope}" = .ok "a1bdflt${nope}" ∧
+    R 5 "${k${x}}-${y}" = .ok "K-1" ∧
+    R 9 "a${c}" = .panic ∧
+    R 5 "a${x" = .ok "a${x" ∧
+    R 1 "${y}" = .fuel := by
+  decide
+
+end Ytk.C11
+
+/-! ## `propImpl.resolve`, as translated, against the model: the general case -/
+namespace Ytk.C11
+open Ytk.Generated Ytk.Resolver
+
+/-- lexing a Go string -/
+def lexS (d : Delims) (s : String) : Toks := lex d s.toList
+/-- rendering tokens as a Go string -/
+def render (d : Delims) (t : Toks) : String := String.ofList (unlex d t)
+
+/-- the translated `resolve` for the delimiter triple `d` and the lookup function `lk` -/
+abbrev genResolve (d : Delims) (lk : String → Option String) (m : Nat) (s : String) (lk' : String → Option String)
+    (seen : List String) : Go.Res (Option String) :=
+  Funcs.resolve (String.ofList d.pre) (d.pre.length : Int) (String.ofList d.suf) (d.suf.length : Int)
+    (String.ofList d.sep) (d.sep.length : Int) m s lk' seen
+
+/-- the loop of the translated `resolve`, its recursive calls going to `rec_` -/
+abbrev genLoop (d : Delims) (lk : String → Option String)
+    (rec_ : String → (String → Option String) → List String → Go.Res (Option String))
+    (lf : Nat) (seen : List String) (si : Int) (result : String) : Go.Res (List String × Int × String) :=
+  Funcs.resolve_loop1 rec_ (String.ofList d.pre) (d.pre.length : Int) (String.ofList d.suf) (d.suf.length : Int)
+    (String.ofList d.sep) (d.sep.length : Int) lk lf seen si result
+
+/-- outcome kinds: ok ↦ ok (pointer to the rendering), circular reference ↦ panic, out of fuel ↦ out of fuel -/
+def conv (d : Delims) : Resolver.Res → Go.Res (Option String)
+  | .ok t => .ok (some (render d t))
+  | .cycle _ => .panic
+  | .outOfFuel => .fuel
+
+/-- the same with the already finished part `done` of `result` in front -/
+def convL (d : Delims) (done : List Char) : Resolver.Res → Go.Res (Option String)
+  | .ok t => .ok (some (String.ofList (done ++ unlex d t)))
+  | .cycle _ => .panic
+  | .outOfFuel => .fuel
+
+/-- what `resolve` does with the outcome of its loop: `return &result` -/
+def rsFinish : (List String × Int × String) → Go.Res (Option String)
+  | (_, _, result) => .ok (some result)
+
+/-- Go's `si` while `result = done ++ rest`: position of the first prefix in `rest`, or notFound -/
+def siOf (d : Delims) (done rest : List Char) : Int :=
+  match findPre (lex d rest) with
+  | none => -1
+  | some (b, _) => ((done.length + (unlex d b).length : Nat) : Int)
+
+theorem convL_nil (d : Delims) (r : Resolver.Res) : convL d [] r = conv d r := by
+  cases r <;> simp [convL, conv, render]
+
+theorem lexS_render_inj (d : Delims) {a b : String} (h : lexS d a = lexS d b) : a = b := by
+  have := congrArg (unlex d) h
+  simp only [lexS, unlex_lex'] at this
+  exact String.toList_inj.mp this
+
+theorem contains_map_lexS (d : Delims) (seen : List String) (x : String) :
+    (seen.map (lexS d)).contains (lexS d x) = seen.contains x := by
+  induction seen with
+  | nil => rfl
+  | cons a r ih =>
+    by_cases h : x = a
+    · subst h; simp [List.contains_cons]
+    · have h' : lexS d x ≠ lexS d a := fun e => h (lexS_render_inj d e)
+      have b1 : (lexS d x == lexS d a) = false := by simpa using h'
+      have b2 : (x == a) = false := by simpa using h
+      simp only [List.map_cons, List.contains_cons, ih, b1, b2]
+
+/-- the bytes around the first placeholder of a lexed text, and the segments that re-lex to themselves -/
+theorem firstPh_bytes {d : Delims} (hd : d.LexOK) {rest : List Char} {before ph after : Toks}
+    (h : firstPh (lex d rest) = some (before, ph, after)) :
+    rest = unlex d before ++ (d.pre ++ (unlex d ph ++ (d.suf ++ unlex d after)))
+    ∧ lex d (unlex d ph) = ph ∧ lex d (unlex d after) = after
+    ∧ findPre (lex d rest) = some (before, ph ++ .suf :: after)
+    ∧ lex d (unlex d (ph ++ .suf :: after)) = ph ++ .suf :: after := by
+  obtain ⟨afterPre, h1, h2⟩ := firstPh_split h
+  have e1 := (findPre_some h1).1
+  have e2 := (findEnd_some_spec h2).1
+  subst e2
+  have hr := unlex_lex' d rest
+  rw [e1] at hr
+  have hsuf : lex d (unlex d (ph ++ .suf :: after)) = ph ++ .suf :: after :=
+    lex_unlex_suffix hd _ rest (Nat.le_refl _) (before ++ [.pre]) _ (by rw [e1]; simp)
+  refine ⟨?_, ?_, ?_, h1, hsuf⟩
+  · rw [← hr]; simp [DivR.unlex_append, unlex, unlexTok]
+  · exact lex_unlex_prefix hd _ _ (Nat.le_refl _) ph (.suf :: after) hsuf
+  · exact lex_unlex_suffix hd _ rest (Nat.le_refl _) (before ++ .pre :: ph ++ [.suf]) after (by rw [e1]; simp)
+
+theorem genLoop_exit (d : Delims) (lk : String → Option String)
+    (rec_ : String → (String → Option String) → List String → Go.Res (Option String))
+    (f : Nat) (seen : List String) (result : String) :
+    genLoop d lk rec_ (f + 1) seen (-1) result = .ok (seen, -1, result) := by
+  simp [genLoop, Funcs.resolve_loop1]
+
+end Ytk.C11
+
+namespace Ytk.C11
+open Ytk.Generated Ytk.Resolver
+
+/-- the recursive calls of the translated `resolve` with fuel `m` agree with the model at fuel `n` -/
+def SubOK (d : Delims) (lk : String → Option String) (tbl : Table) (m n : Nat) : Prop :=
+  ∀ (s : String) (seen : List String),
+    Resolver.resolve (relex d) n tbl (lexS d s) (seen.map (lexS d)) ≠ .outOfFuel →
+    genResolve d lk m s lk seen = conv d (Resolver.resolve (relex d) n tbl (lexS d s) (seen.map (lexS d)))
+
+/-- the loop of the translated `resolve` (recursive calls with fuel `m`), continued on the unscanned
+    rest of `result`, agrees with the model at fuel `n` on the tokens of that rest -/
+def LoopOK (d : Delims) (lk : String → Option String) (tbl : Table) (m n : Nat) : Prop :=
+  ∀ (done rest : List Char) (seen : List String) (lf : Nat), rest.length + 1 ≤ lf →
+    Resolver.resolve (relex d) n tbl (lex d rest) (seen.map (lexS d)) ≠ .outOfFuel →
+    (genLoop d lk (genResolve d lk m) lf seen (siOf d done rest) (String.ofList (done ++ rest)) >>= rsFinish)
+      = convL d done (Resolver.resolve (relex d) n tbl (lex d rest) (seen.map (lexS d)))
+
+theorem siOf_eq_stringsIndexC {d : Delims} (hd : d.BytesOK) (done rest : List Char) :
+    siOf d done rest = Go.stringsIndexC d.pre rest done.length := by
+  rw [stringsIndexC_pre hd]; rfl
+
+/-- the resolved value that replaces a placeholder re-lexes to itself -/
+theorem relex_value {d : Delims} (hd : d.LexOK) {tbl : Table} (hT : ∀ kv ∈ tbl, relex d kv.2 = kv.2)
+    {x : List Char} {pv : Toks} (h : Resolver.resolvePlaceholder tbl (lex d x) = some pv) : lex d (unlex d pv) = pv := by
+  rcases resolvePlaceholder_cases h with ⟨k, hk⟩ | ⟨k, hk⟩
+  · exact hT _ hk
+  · have e := findSep_some hk
+    exact lex_unlex_suffix hd _ x (Nat.le_refl _) (k ++ [.sep]) pv (by rw [e]; simp)
+
+end Ytk.C11
+
+namespace Ytk.C11
+open Ytk.Generated Ytk.Resolver
+
+/-- ONE ITERATION of the loop of the translated `resolve` against one unfolding of the model -/
+theorem loop_iter (d : Delims) (hd : d.BytesOK) (lk : String → Option String) (tbl : Table)
+    (hlk : LookupRel d lk tbl) (hT : ∀ kv ∈ tbl, relex d kv.2 = kv.2) (m n : Nat)
+    (H : SubOK d lk tbl m n) (K : LoopOK d lk tbl m n) : LoopOK d lk tbl m (n + 1) := by
+  intro done rest seen lf hlf hne
+  have hlex := hd.1.1
+  obtain ⟨pa, pas, sa, sas, va, vas, hpre, hsuf, _⟩ := hd.1.cases
+  have hpl : 1 ≤ d.pre.length := by rw [hpre]; simp
+  have hsl : 1 ≤ d.suf.length := by rw [hsuf]; simp
+  cases lf with
+  | zero => omega
+  | succ f =>
+  have plain : ∀ (si : Int), firstPh (lex d rest) = none →
+      (genLoop d lk (genResolve d lk m) (f + 1) seen si (String.ofList (done ++ rest)) >>= rsFinish)
+        = .ok (some (String.ofList (done ++ rest))) →
+      (genLoop d lk (genResolve d lk m) (f + 1) seen si (String.ofList (done ++ rest)) >>= rsFinish)
+        = convL d done (Resolver.resolve (relex d) (n + 1) tbl (lex d rest) (seen.map (lexS d))) := by
+    intro si hfp hgo
+    rw [hgo, resolve_succ_none n _ hfp]
+    simp [convL, unlex_lex']
+  cases hp : findPre (lex d rest) with
+  | none =>
+    apply plain _ (by simp [firstPh, hp])
+    have : siOf d done rest = -1 := by simp [siOf, hp]
+    rw [this, genLoop_exit]; rfl
+  | some p =>
+    obtain ⟨b, afterPre⟩ := p
+    have e1 := (findPre_some hp).1
+    have hrest : rest = unlex d b ++ (d.pre ++ unlex d afterPre) := by
+      have := unlex_lex' d rest
+      rw [e1, DivR.unlex_append] at this
+      rw [← this]; simp [unlex, unlexTok]
+    have hAP : lex d (unlex d afterPre) = afterPre :=
+      lex_unlex_suffix hlex _ rest (Nat.le_refl _) (b ++ [.pre]) afterPre (by rw [e1]; simp)
+    have hsi : siOf d done rest = ((done.length + (unlex d b).length : Nat) : Int) := by simp [siOf, hp]
+    have hsine : ((((done.length + (unlex d b).length : Nat) : Int)) != -1) = true := by
+      simp; omega
+    have hres : (String.ofList (done ++ rest)).toList = done ++ rest := String.toList_ofList
+    have hdrop : (done ++ rest).drop (done.length + (unlex d b).length + d.pre.length) = unlex d afterPre := by
+      rw [hrest]
+      have : done ++ (unlex d b ++ (d.pre ++ unlex d afterPre)) = (done ++ unlex d b ++ d.pre) ++ unlex d afterPre := by simp
+      rw [this, List.drop_left' (by simp only [List.length_append]; first | done | omega)]
+    have hfe := findEndIndex_generated_eq_model d hd.1 (String.ofList (done ++ rest)) (done.length + (unlex d b).length)
+    rw [hres, hdrop, hAP] at hfe
+    rw [hsi]
+    cases he : findEnd 0 afterPre with
+    | none =>
+      rw [← hsi]
+      apply plain _ (by simp [firstPh, hp, he])
+      rw [hsi]
+      rw [he] at hfe
+      have hf1 : 1 ≤ f := by
+        have : rest.length = (unlex d b).length + (d.pre.length + (unlex d afterPre).length) := by
+          rw [hrest]; simp
+        omega
+      obtain ⟨f', rfl⟩ : ∃ f', f = f' + 1 := ⟨f - 1, by omega⟩
+      simp only [genLoop, Funcs.resolve_loop1, hsine, if_true, hfe, Go.Res.ok_bind, bne_self_eq_false,
+        Bool.false_eq_true, if_false]
+      rfl
+    | some q =>
+      obtain ⟨ph, after⟩ := q
+      rw [he] at hfe
+      have hfirst : firstPh (lex d rest) = some (b, ph, after) := firstPh_of hp he
+      obtain ⟨hbytes, hphL, hafterL, _, _⟩ := firstPh_bytes hlex hfirst
+      have hlen : rest.length = (unlex d b).length + (d.pre.length + ((unlex d ph).length + (d.suf.length + (unlex d after).length))) := by
+        rw [hbytes]; simp
+      -- the placeholder text
+      have heine : ((((done.length + (unlex d b).length + d.pre.length + (unlex d ph).length : Nat) : Int)) != -1) = true := by
+        simp; omega
+      have e_sipl : (((done.length + (unlex d b).length : Nat) : Int)) + (d.pre.length : Int)
+          = ((done.length + (unlex d b).length + d.pre.length : Nat) : Int) := by omega
+      have hslice := Go.slice_nat (String.ofList (done ++ rest)) (done.length + (unlex d b).length + d.pre.length)
+        (done.length + (unlex d b).length + d.pre.length + (unlex d ph).length) (by omega) (by rw [hres]; simp; omega)
+      have hphbytes : ((done ++ rest).drop (done.length + (unlex d b).length + d.pre.length)).take
+          (done.length + (unlex d b).length + d.pre.length + (unlex d ph).length - (done.length + (unlex d b).length + d.pre.length))
+          = unlex d ph := by
+        rw [hbytes]
+        have : done ++ (unlex d b ++ (d.pre ++ (unlex d ph ++ (d.suf ++ unlex d after))))
+            = (done ++ unlex d b ++ d.pre) ++ (unlex d ph ++ (d.suf ++ unlex d after)) := by simp
+        rw [this, List.drop_left' (by simp only [List.length_append]; first | done | omega)]
+        simp
+      rw [hres, hphbytes, show String.ofList (unlex d ph) = render d ph from rfl] at hslice
+      have hphS : lexS d (render d ph) = ph := by simp [lexS, render, hphL]
+      have hcont : Go.slicesContains seen (render d ph) = (seen.map (lexS d)).contains ph := by
+        rw [← hphS, contains_map_lexS, hphS]; rfl
+      simp only [genLoop, Funcs.resolve_loop1, hsine, if_true, hfe, Go.Res.ok_bind, heine, e_sipl, hslice]
+      show (if Go.slicesContains seen (render d ph) = true then _ else _) >>= rsFinish = _
+      rw [hcont]
+      by_cases hc : ph ∈ seen.map (lexS d)
+      · have hc' : (seen.map (lexS d)).contains ph = true := by simpa using hc
+        rw [resolve_succ_here n hfirst hc, hc']
+        simp only [if_true, Go.Res.panic_bind, convL]
+      · have hc' : (seen.map (lexS d)).contains ph = false := by simpa using hc
+        have hnotin : render d ph ∉ seen := by
+          intro hm
+          apply hc
+          rw [← hphS]
+          exact List.mem_map_of_mem hm
+        rw [resolve_succ_some n hfirst hc] at hne ⊢
+        have hseen1 : (seen ++ [render d ph]).map (lexS d) = seen.map (lexS d) ++ [ph] := by simp [hphS]
+        have hrm : Funcs.removeFromSlice (seen ++ [render d ph]) (render d ph) = .ok seen := by
+          rw [removeFromSlice_generated_eq_model, List.erase_append_right _ hnotin]; simp
+        simp only [hc', Bool.false_eq_true, if_false]
+        unfold body at hne ⊢
+        -- first recursive call: the placeholder text
+        have h1 := H (render d ph) (seen ++ [render d ph])
+        rw [hseen1, hphS] at h1
+        cases hr1 : Resolver.resolve (relex d) n tbl ph (seen.map (lexS d) ++ [ph]) with
+        | outOfFuel => rw [hr1] at hne; exact absurd rfl hne
+        | cycle o =>
+          rw [hr1] at h1
+          simp only [genResolve] at h1
+          simp [h1 (by simp), conv, convL]
+        | ok ph' =>
+          rw [hr1] at h1 hne
+          simp only [genResolve] at h1
+          have hrp := resolvePlaceholder_generated_eq_model d hd lk tbl hlk (render d ph')
+          have hrl : lex d (render d ph').toList = relex d ph' := by simp [render, relex]
+          rw [hrl] at hrp
+          simp only [h1 (by simp), conv, Go.Res.ok_bind, Go.deref, hrp]
+          cases hpv : Resolver.resolvePlaceholder tbl (relex d ph') with
+          | none =>
+            simp only [hpv] at hne
+            simp only [Option.map_none, Option.isSome_none, Bool.false_eq_true, if_false]
+            -- indexAfter(result, prefix, ei+sl)
+            have e_eisl : (((done.length + (unlex d b).length + d.pre.length + (unlex d ph).length : Nat) : Int)) + (d.suf.length : Int)
+                = ((done.length + (unlex d b).length + d.pre.length + (unlex d ph).length + d.suf.length : Nat) : Int) := by omega
+            have hia := indexAfter_generated_eq_model (String.ofList (done ++ rest)) (String.ofList d.pre)
+              (done.length + (unlex d b).length + d.pre.length + (unlex d ph).length + d.suf.length)
+            have hnl : ¬ (String.ofList (done ++ rest)).toList.length
+                < done.length + (unlex d b).length + d.pre.length + (unlex d ph).length + d.suf.length := by
+              rw [hres]; simp; omega
+            have hdone' : done ++ rest = (done ++ unlex d b ++ d.pre ++ unlex d ph ++ d.suf) ++ unlex d after := by
+              rw [hbytes]; simp
+            have hdrop2 : (done ++ rest).drop (done.length + (unlex d b).length + d.pre.length + (unlex d ph).length + d.suf.length)
+                = unlex d after := by
+              rw [hdone', List.drop_left' (by simp only [List.length_append]; first | done | omega)]
+            rw [if_neg hnl, hres, hdrop2, String.toList_ofList] at hia
+            have hsi' : Go.stringsIndexC d.pre (unlex d after)
+                (done.length + (unlex d b).length + d.pre.length + (unlex d ph).length + d.suf.length)
+                = siOf d (done ++ unlex d b ++ d.pre ++ unlex d ph ++ d.suf) (unlex d after) := by
+              rw [siOf_eq_stringsIndexC hd]; congr 1; simp only [List.length_append]
+            rw [hsi'] at hia
+            simp only [e_eisl, hia, Go.Res.ok_bind, hrm]
+            have hk := K (done ++ unlex d b ++ d.pre ++ unlex d ph ++ d.suf) (unlex d after) seen f (by omega)
+            rw [hafterL] at hk
+            have hne' : Resolver.resolve (relex d) n tbl after (seen.map (lexS d)) ≠ .outOfFuel :=
+              prepend_ne_outOfFuel.mp hne
+            rw [← hdone'] at hk
+            show genLoop d lk (genResolve d lk m) f seen _ _ >>= rsFinish = _
+            rw [hk hne']
+            cases Resolver.resolve (relex d) n tbl after (seen.map (lexS d)) <;>
+              simp [convL, Res.prepend, DivR.unlex_append, unlex, unlexTok]
+          | some pv =>
+            simp only [hpv] at hne
+            simp only [Option.map_some, Option.isSome_some, if_true]
+            have hpvL : lex d (unlex d pv) = pv := by
+              have hh : Resolver.resolvePlaceholder tbl (lex d (unlex d ph')) = some pv := hpv
+              exact relex_value hlex hT hh
+            have hpvS : lexS d (render d pv) = pv := by simp [lexS, render, hpvL]
+            have h2 := H (render d pv) (seen ++ [render d ph])
+            rw [hseen1, hpvS] at h2
+            cases hr2 : Resolver.resolve (relex d) n tbl pv (seen.map (lexS d) ++ [ph]) with
+            | outOfFuel => rw [hr2] at hne; exact absurd rfl hne
+            | cycle o =>
+              rw [hr2] at h2
+              simp only [genResolve] at h2
+              show (genResolve d lk m (render d pv) lk (seen ++ [render d ph]) >>= _) >>= rsFinish = _
+              simp [genResolve, h2 (by simp), conv, convL]
+            | ok pv' =>
+              rw [hr2] at h2 hne
+              simp only [genResolve] at h2
+              show (genResolve d lk m (render d pv) lk (seen ++ [render d ph]) >>= _) >>= rsFinish = _
+              simp only [genResolve, h2 (by simp), conv, Go.Res.ok_bind, Go.deref]
+              -- replaceAt(result, si, ei+sl, *pv)
+              have e_eisl : (((done.length + (unlex d b).length + d.pre.length + (unlex d ph).length : Nat) : Int)) + (d.suf.length : Int)
+                  = ((done.length + (unlex d b).length + d.pre.length + (unlex d ph).length + d.suf.length : Nat) : Int) := by omega
+              have hra := replaceAt_generated_eq_model (String.ofList (done ++ rest)) (render d pv')
+                (done.length + (unlex d b).length)
+                (done.length + (unlex d b).length + d.pre.length + (unlex d ph).length + d.suf.length)
+                (by rw [hres]; simp; omega)
+              have hdone' : done ++ rest = (done ++ unlex d b ++ d.pre ++ unlex d ph ++ d.suf) ++ unlex d after := by
+                rw [hbytes]; simp
+              have hdrop2 : (done ++ rest).drop (done.length + (unlex d b).length + d.pre.length + (unlex d ph).length + d.suf.length)
+                  = unlex d after := by
+                rw [hdone', List.drop_left' (by simp only [List.length_append]; first | done | omega)]
+              have htake : (done ++ rest).take (done.length + (unlex d b).length) = done ++ unlex d b := by
+                have : done ++ rest = (done ++ unlex d b) ++ (d.pre ++ (unlex d ph ++ (d.suf ++ unlex d after))) := by
+                  rw [hbytes]; simp
+                rw [this, List.take_left' (by simp only [List.length_append])]
+              rw [hres, htake, hdrop2] at hra
+              have hrt : (render d pv').toList = unlex d pv' := by simp [render]
+              rw [hrt] at hra
+              -- indexAfter(result, prefix, si+len(*pv))
+              have e_len : (((done.length + (unlex d b).length : Nat) : Int)) + Go.len (render d pv')
+                  = ((done.length + (unlex d b).length + (unlex d pv').length : Nat) : Int) := by
+                rw [Go.len_eq, hrt]; omega
+              have hia := indexAfter_generated_eq_model
+                (String.ofList (done ++ unlex d b ++ unlex d pv' ++ unlex d after)) (String.ofList d.pre)
+                (done.length + (unlex d b).length + (unlex d pv').length)
+              simp only [String.toList_ofList] at hia
+              have hnl : ¬ (done ++ unlex d b ++ unlex d pv' ++ unlex d after).length
+                  < done.length + (unlex d b).length + (unlex d pv').length := by
+                simp only [List.length_append]; omega
+              have hdrop3 : (done ++ unlex d b ++ unlex d pv' ++ unlex d after).drop
+                  (done.length + (unlex d b).length + (unlex d pv').length) = unlex d after := by
+                rw [List.drop_left' (by simp only [List.length_append]; first | done | omega)]
+              rw [if_neg hnl, hdrop3] at hia
+              have hsi' : Go.stringsIndexC d.pre (unlex d after)
+                  (done.length + (unlex d b).length + (unlex d pv').length)
+                  = siOf d (done ++ unlex d b ++ unlex d pv') (unlex d after) := by
+                rw [siOf_eq_stringsIndexC hd]; congr 1; simp only [List.length_append]
+              rw [hsi'] at hia
+              simp only [e_eisl, hra, Go.Res.ok_bind, e_len, hia, hrm]
+              have hk := K (done ++ unlex d b ++ unlex d pv') (unlex d after) seen f (by omega)
+              rw [hafterL] at hk
+              have hne' : Resolver.resolve (relex d) n tbl after (seen.map (lexS d)) ≠ .outOfFuel :=
+                prepend_ne_outOfFuel.mp hne
+              show genLoop d lk (genResolve d lk m) f seen _ _ >>= rsFinish = _
+              rw [hk hne']
+              cases Resolver.resolve (relex d) n tbl after (seen.map (lexS d)) <;>
+                simp [convL, Res.prepend, DivR.unlex_append]
+
+end Ytk.C11
+
+namespace Ytk.C11
+open Ytk.Generated Ytk.Resolver
+
+theorem loopOK_of_sub (d : Delims) (hd : d.BytesOK) (lk : String → Option String) (tbl : Table)
+    (hlk : LookupRel d lk tbl) (hT : ∀ kv ∈ tbl, relex d kv.2 = kv.2) (m : Nat) :
+    ∀ n, (∀ n', n' < n → SubOK d lk tbl m n') → LoopOK d lk tbl m n := by
+  intro n
+  induction n with
+  | zero => intro _ done rest seen lf _ hne; exact absurd rfl hne
+  | succ n ih =>
+    intro Hs
+    exact loop_iter d hd lk tbl hlk hT m n (Hs n (Nat.lt_succ_self n)) (ih (fun n' h => Hs n' (Nat.lt_succ_of_lt h)))
+
+theorem subOK_all (d : Delims) (hd : d.BytesOK) (lk : String → Option String) (tbl : Table)
+    (hlk : LookupRel d lk tbl) (hT : ∀ kv ∈ tbl, relex d kv.2 = kv.2) :
+    ∀ m n, n ≤ m → SubOK d lk tbl m n := by
+  intro m
+  induction m with
+  | zero =>
+    intro n hn s seen hne
+    have : n = 0 := by omega
+    subst this
+    exact absurd rfl hne
+  | succ m ih =>
+    intro n hn s seen hne
+    cases n with
+    | zero => exact absurd rfl hne
+    | succ n =>
+      have hL := loopOK_of_sub d hd lk tbl hlk hT m (n + 1) (fun n' h => ih n' (by omega))
+      have hloop := hL [] s.toList seen (s.toList.length + 1) (Nat.le_refl _) hne
+      simp only [List.nil_append, String.ofList_toList, convL_nil] at hloop
+      have hsi := stringsIndex_pre hd s
+      have hfuel : (Go.len s + 1).toNat = s.toList.length + 1 := by simp only [Go.len_eq]; omega
+      unfold genResolve Funcs.resolve
+      simp only [hfuel]
+      cases hp : findPre (lex d s.toList) with
+      | none =>
+        rw [hp] at hsi
+        have : firstPh (lexS d s) = none := by simp [firstPh, lexS, hp]
+        rw [resolve_succ_none n _ this]
+        simp [hsi, conv, render, lexS, unlex_lex']
+      | some p =>
+        obtain ⟨b, afterPre⟩ := p
+        rw [hp] at hsi
+        have hso : siOf d [] s.toList = (((unlex d b).length : Nat) : Int) := by simp [siOf, hp]
+        rw [hso] at hloop
+        have hne1 : ((((unlex d b).length : Nat) : Int) == -1) = false := by
+          rw [beq_eq_false_iff_ne]; omega
+        simp only [hsi, hne1, Bool.false_eq_true, if_false]
+        show _ = conv d (Resolver.resolve (relex d) (n + 1) tbl (lex d s.toList) (seen.map (lexS d)))
+        rw [← hloop]
+        show (_ >>= _) = (_ >>= _)
+        congr 1
+
+/-- **props.propImpl.resolve, as translated (BYTES), against the hand-written model (TOKENS).**
+    For every delimiter triple in `Delims.BytesOK`, every lookup function `lk` and table `tbl` that
+    describe the same map under the lexer (`LookupRel`), the table values re-lexing to themselves (true
+    of every table obtained by lexing strings), every text `s`, every stack `seen`:
+    whenever the model has ENDED with fuel `n` (`≠ outOfFuel`), the translated function run with any
+    recursion fuel `m ≥ n` (its loop with the fuel `len(value)+1` the translator instantiates) neither
+    runs out of fuel nor panics on a slice bound, and has the SAME OUTCOME KIND and text:
+      model `.ok t`     ↦ `.ok (some (unlex t))`  (the Go result `&result`, result = rendering of `t`)
+      model `.cycle _`  ↦ `.panic`                 (the "Circular placeholder reference" panic).
+    The model runs with the real `norm = relex d` on `lex d s` and the lexed stack.
+    (The model spends one unit of fuel per loop continuation as well, the translation only per
+    recursive call: with EQUAL fuel the translation may still end where the model reports
+    `outOfFuel`; hence the statement is this direction, for all `m ≥ n`.) -/
+theorem resolve_generated_eq_model (d : Delims) (hd : d.BytesOK) (lk : String → Option String) (tbl : Table)
+    (hlk : LookupRel d lk tbl) (hT : ∀ kv ∈ tbl, relex d kv.2 = kv.2) (n m : Nat) (hnm : n ≤ m)
+    (s : String) (seen : List String)
+    (hne : Resolver.resolve (relex d) n tbl (lex d s.toList) (seen.map fun x => lex d x.toList) ≠ .outOfFuel) :
+    Funcs.resolve (String.ofList d.pre) (d.pre.length : Int) (String.ofList d.suf) (d.suf.length : Int)
+        (String.ofList d.sep) (d.sep.length : Int) m s lk seen
+      = (match Resolver.resolve (relex d) n tbl (lex d s.toList) (seen.map fun x => lex d x.toList) with
+         | .ok t => .ok (some (String.ofList (unlex d t)))
+         | .cycle _ => .panic
+         | .outOfFuel => .fuel) := by
+  have := subOK_all d hd lk tbl hlk hT m n hnm s seen hne
+  show genResolve d lk m s lk seen = _
+  rw [this]
+  show conv d (Resolver.resolve (relex d) n tbl (lex d s.toList) (seen.map fun x => lex d x.toList)) = _
+  generalize Resolver.resolve (relex d) n tbl (lex d s.toList) (seen.map fun x => lex d x.toList) = r
+  cases r <;> rfl
+
+/-- **`Resolver.Resolve(s)`, as translated, against `resolveTop`**: same outcome kind and text
+    whenever the model has ended (hypotheses as in `resolve_generated_eq_model`) -/
+theorem Resolve_generated_eq_model (d : Delims) (hd : d.BytesOK) (lk : String → Option String) (tbl : Table)
+    (hlk : LookupRel d lk tbl) (hT : ∀ kv ∈ tbl, relex d kv.2 = kv.2) (n m : Nat) (hnm : n ≤ m) (s : String)
+    (hne : Resolver.resolveTop (relex d) n tbl (lex d s.toList) ≠ .outOfFuel) :
+    Funcs.Resolve m lk (String.ofList d.pre) (d.pre.length : Int) (String.ofList d.suf) (d.suf.length : Int)
+        (String.ofList d.sep) (d.sep.length : Int) s
+      = (match Resolver.resolveTop (relex d) n tbl (lex d s.toList) with
+         | .ok t => .ok (String.ofList (unlex d t))
+         | .cycle _ => .panic
+         | .outOfFuel => .fuel) := by
+  unfold Funcs.Resolve Resolver.resolveTop at *
+  have := resolve_generated_eq_model d hd lk tbl hlk hT n m hnm s [] hne
+  simp only [List.map_nil] at this
+  rw [this]
+  cases Resolver.resolve (relex d) n tbl (lex d s.toList) [] <;> simp [Go.deref]
+
+/-- the lookup function that a token table describes -/
+def lkOf (d : Delims) (tbl : Table) : String → Option String :=
+  fun k => (tbl.get (lex d k.toList)).map (fun v => String.ofList (unlex d v))
+
+theorem lookupRel_lkOf (d : Delims) (tbl : Table) : LookupRel d (lkOf d tbl) tbl := fun _ => rfl
+
+/-- the hypotheses of `resolve_generated_eq_model` are satisfiable together on a non-trivial run
+    (default delimiters; a value that is itself a placeholder, a default, kernel-evaluated on both sides) -/
+theorem nonvacuous_resolve_generated_eq_model :
+    let d := DivR.dd
+    let tbl : Table := [(lex d "x".toList, lex d "${y}".toList), (lex d "y".toList, lex d "1".toList)]
+    d.BytesOK ∧ (∀ kv ∈ tbl, relex d kv.2 = kv.2) ∧ LookupRel d (lkOf d tbl) tbl ∧
+    Resolver.resolve (relex d) 6 tbl (lex d "a${x}${q:z}".toList) [] = .ok (lex d "a1z".toList) ∧
+    Funcs.resolve "${" 2 "}" 1 ":" 1 6 "a${x}${q:z}" (lkOf d tbl) [] = .ok (some "a1z") := by
+  refine ⟨by decide, by decide, fun _ => rfl, by decide, by decide⟩
 
 end Ytk.C11
